@@ -14,6 +14,7 @@ import (
 	"github.com/pokt-network/posmint/x/auth"
 	govtypes "github.com/pokt-network/posmint/x/gov/types"
 	postypes "github.com/pokt-network/posmint/x/pos/types"
+	amino "github.com/tendermint/go-amino"
 	abci "github.com/tendermint/tendermint/abci/types"
 	tmtypes "github.com/tendermint/tendermint/types"
 )
@@ -106,7 +107,10 @@ func evDigest(parts ...interface{}) string {
 func (a *App) BuildTx(act Action, entropy int64) []byte {
 	if act.Kind == "garbage" {
 		h := sha256.Sum256([]byte(fmt.Sprintf("garbage-%d-%d", act.Variant, entropy)))
-		switch act.Variant % 4 {
+		// the kind of malformation rotates with the running counter so that every kind occurs in every run
+		switch (act.Variant + int(entropy%1000003)) % 5 {
+		case 4: // decodable, but a field of the message is missing on the wire (its Int decodes to nil)
+			return a.shadowTx(entropy)
 		case 0:
 			return []byte{}
 		case 1:
@@ -203,6 +207,41 @@ func (a *App) BuildTx(act Action, entropy int64) []byte {
 		panic("unknown mutation " + act.Mut)
 	}
 	bz, err := a.Cdc.MarshalBinaryLengthPrefixed(tx)
+	if err != nil {
+		panic(err)
+	}
+	return bz
+}
+
+// shadowTx encodes a transaction whose pos/Send message has no Amount field: the same amino
+// names and field numbers as the real types, registered in a private codec.
+type shadowMsg interface{}
+type shadowSend struct {
+	FromAddress sdk.Address
+	ToAddress   sdk.Address
+}
+type shadowPub interface{}
+type shadowSig struct {
+	PublicKey shadowPub `json:"pub_key"`
+	Signature []byte    `json:"signature"`
+}
+type shadowStdTx struct {
+	Msg       shadowMsg `json:"msg"`
+	Fee       sdk.Coins `json:"fee"`
+	Signature shadowSig `json:"signature"`
+	Memo      string    `json:"memo"`
+	Entropy   int64     `json:"entropy"`
+}
+
+func (a *App) shadowTx(entropy int64) []byte {
+	c := amino.NewCodec()
+	c.RegisterInterface((*shadowMsg)(nil), nil)
+	c.RegisterInterface((*shadowPub)(nil), nil)
+	c.RegisterConcrete(shadowSend{}, "pos/Send", nil)
+	c.RegisterConcrete(shadowStdTx{}, "posmint/StdTx", nil)
+	tx := shadowStdTx{Msg: shadowSend{FromAddress: a.Addr(1), ToAddress: a.Addr(2)}, Fee: coins(a.Cfg.Fee),
+		Signature: shadowSig{Signature: []byte{1, 2, 3}}, Memo: "", Entropy: entropy}
+	bz, err := c.MarshalBinaryLengthPrefixed(tx)
 	if err != nil {
 		panic(err)
 	}
